@@ -57,19 +57,29 @@ theorem lastOf_ne_nil {l : List Nat} (h : l ≠ []) : lastOf l ≠ [] := by
   intro h'
   exact h (lastOf_eq_nil h')
 
+/-- what the proofs need to know about `_check_flows`: it selects among the given names and
+selects nothing only when there is nothing -/
+structure IsSel (sel : List Nat → List Nat) : Prop where
+  sub : ∀ {l d}, d ∈ sel l → d ∈ l
+  nil : ∀ {l}, sel l = [] → l = []
+
+theorem isSel_lastOf : IsSel lastOf := ⟨mem_lastOf, lastOf_eq_nil⟩
+theorem isSel_id : IsSel id := ⟨fun h => h, fun h => h⟩
+
 /-- a landing of the chain walk is a definition or a `global` declaration of `x` -/
-theorem gotoFrom_landing (p : Prog) (x : Nat) (fuel ctx : Nat) (lim : Option Nat) (d : Nat)
-    (h : d ∈ gotoFrom p x fuel ctx lim) :
+theorem gotoFromSel_landing {sel : List Nat → List Nat} (hsel : IsSel sel) (p : Prog) (x : Nat)
+    (fuel ctx : Nat) (lim : Option Nat) (d : Nat)
+    (h : d ∈ gotoFromSel sel p x fuel ctx lim) :
     ∃ o, p.occs[d]? = some o ∧ o.name = x ∧ (o.role.isDef = true ∨ o.role = .globalDecl) := by
   induction fuel generalizing ctx lim with
-  | zero => simp [gotoFrom] at h
+  | zero => simp [gotoFromSel] at h
   | succ n ih =>
-    have fromDefs : ∀ s l, d ∈ lastOf (defsIn p s x l) →
+    have fromDefs : ∀ s l, d ∈ sel (defsIn p s x l) →
         ∃ o, p.occs[d]? = some o ∧ o.name = x ∧ (o.role.isDef = true ∨ o.role = .globalDecl) := by
       intro s l hd
-      obtain ⟨o, ho, hn, -, hdef, -⟩ := (mem_defsIn p s x l d).mp (mem_lastOf hd)
+      obtain ⟨o, ho, hn, -, hdef, -⟩ := (mem_defsIn p s x l d).mp (hsel.sub hd)
       exact ⟨o, ho, hn, Or.inl hdef⟩
-    unfold gotoFrom at h
+    unfold gotoFromSel at h
     split at h
     · rcases List.mem_append.mp h with h | h
       · exact fromDefs _ _ h
@@ -88,6 +98,11 @@ theorem gotoFrom_landing (p : Prog) (x : Nat) (fuel ctx : Nat) (lim : Option Nat
     · split at h
       · exact ih _ _ h
       · exact fromDefs _ _ h
+
+theorem gotoFrom_landing (p : Prog) (x : Nat) (fuel ctx : Nat) (lim : Option Nat) (d : Nat)
+    (h : d ∈ gotoFrom p x fuel ctx lim) :
+    ∃ o, p.occs[d]? = some o ∧ o.name = x ∧ (o.role.isDef = true ∨ o.role = .globalDecl) :=
+  gotoFromSel_landing isSel_lastOf p x fuel ctx lim d h
 
 theorem bindsIn_of_mem_defsIn {p : Prog} {s x : Nat} {lim : Option Nat} {d : Nat}
     (h : d ∈ defsIn p s x lim) : bindsIn p s x = true := by
